@@ -43,14 +43,17 @@ def execute(job):
         else:
             import xgcm
 
-            ds = xr.Dataset(coords={"zc": ("zc", np.arange(n) + 0.5), "zl": ("zl", np.arange(n) * 1.0), "col": ("col", np.arange(ncol))})
-            grid = xgcm.Grid(ds, coords={"Z": {"center": "zc", "left": "zl"}}, periodic=False, autoparse_metadata=False)
+            N = (lambda x: job.get("names", {}).get(x, x))
+            INV = {v: k for k, v in job.get("names", {}).items()}
+
+            ds = xr.Dataset(coords={N("zc"): (N("zc"), np.arange(n) + 0.5), N("zl"): (N("zl"), np.arange(n) * 1.0), N("col"): (N("col"), np.arange(ncol))})
+            grid = xgcm.Grid(ds, coords={N("Z"): {"center": N("zc"), "left": N("zl")}}, periodic=False, autoparse_metadata=False)
             first = job["extra_first"]
-            dims = ("col", "zc") if first else ("zc", "col")
-            da = xr.DataArray(phis if first else phis.T, dims=dims, name="phi")
-            td = xr.DataArray(real_th if first else real_th.T, dims=dims, name="theta")
+            dims = (N("col"), N("zc")) if first else (N("zc"), N("col"))
+            da = xr.DataArray(phis if first else phis.T, dims=dims, name=N("phi"))
+            td = xr.DataArray(real_th if first else real_th.T, dims=dims, name=N("theta"))
             if job["chunk"]:
-                da, td = da.chunk({"col": 1}), td.chunk({"col": 1})
+                da, td = da.chunk({N("col"): 1}), td.chunk({N("col"): 1})
             kw = {"method": job["method"], "mask_edges": job["mask"], "bypass_checks": job["bypass"]}
             exp_name = "phi" + (job["suffix"] if job["suffix"] is not None else "_transformed")
             if job["suffix"] is not None:
@@ -59,16 +62,19 @@ def execute(job):
             if tk == "array":
                 target, exp_dim = real_lev[0], "theta"
             elif tk == "da1d":
-                target, exp_dim = xr.DataArray(real_lev[0], dims=["lev"], coords={"lev": real_lev[0]}), "lev"
+                target, exp_dim = xr.DataArray(real_lev[0], dims=[N("lev")], coords={N("lev"): real_lev[0]}), "lev"
             else:
-                target = xr.DataArray(np.array(real_lev), dims=["col", "lev"])
-                kw["target_dim"] = "lev"
+                target = xr.DataArray(np.array(real_lev), dims=[N("col"), N("lev")])
+                kw["target_dim"] = N("lev")
                 exp_dim = "lev"
-            res = grid.transform(da, "Z", target, target_data=td, **kw)
-            nd = [d for d in res.dims if d != "col"]
-            newdim = nd[0] if len(nd) == 1 else str(nd)
+            res = grid.transform(da, N("Z"), target, target_data=td, **kw)
+            nd = [d for d in res.dims if d != N("col")]
+            newdim = INV.get(nd[0], nd[0]) if len(nd) == 1 else str(nd)
             name = "none" if res.name is None else str(res.name)
-            res = res.transpose("col", *nd)
+            # the result is named after the input plus the suffix: map the input's part back
+            if name.startswith(N("phi")):
+                name = "phi" + name[len(N("phi")):]
+            res = res.transpose(N("col"), *nd)
             vals = np.asarray(res.values)
             outs = [vals[c] for c in range(ncol)]
         for c, cid in enumerate(job["ids"]):
